@@ -16,10 +16,17 @@ def _funcs():
     return [i._pds_to_de, i._dict_to_iso8583, i._field_to_iso8583, i._pds_to_dict, i._iso8583_to_dict, i._iso8583_to_field]
 
 
-def pack(tags, encoding='latin_1'):
+def pack(tags, encoding='latin_1', cfgname=None):
     def h():
         core.FUEL.set(len(tags) + 3)
         iso = M().iso8583
+        cfgs = None
+        carriers = CARRIERS
+        if cfgname == 'de62-plain':
+            import copy
+            cfgs = copy.deepcopy(M().config.config['bit_config'])
+            del cfgs['62']['field_processor']          # DE62 is plain text in this configuration: carriers are 48, 123, 124, 125
+            carriers = [48, 123, 124, 125]
         ns = [sym_int('len_%s' % t, 0, 992) for t in tags]
         vals = [Source('pds' + t, 't', n).rope() if not (isinstance(n, int) and n == 0) else '' for t, n in zip(tags, ns)]
         order = sorted(range(len(tags)), key=lambda i: tags[i])
@@ -35,10 +42,10 @@ def pack(tags, encoding='latin_1'):
                 ncar += 1
                 cur = 0
             cur = cur + add
-        assume(ncar <= 5)
+        assume(ncar <= len(carriers))
         def rp():
             return {'kind': 'pack', 'args': {'tags': list(tags), 'lengths': [ev(n) for n in ns], 'encoding': encoding,
-                                            'values': [concretize(v, ev) if isinstance(v, Rope) else v for v in vals]}}
+                                            'values': [concretize(v, ev) if isinstance(v, Rope) else v for v in vals], 'cfg': cfgname}}
         with guard('_pds_to_de', 'C12/exception', rp):
             outs = iso._pds_to_de(dict(msg))
         # (1) concatenation of carriers == all sub-elements in ascending tag order, tag(4) len(3) value
@@ -55,18 +62,18 @@ def pack(tags, encoding='latin_1'):
             require(L > 0, 'empty carrier', key='C12/cap', replay=rp)
             cum = cum + L
             require(s_or(*[s_eq(cum, s) for s in sums[1:]]), 'a sub-element is split between carriers', key='C12/split', replay=rp)
-        require(len(outs) <= 5, 'set that fits five carriers was packed into %d' % len(outs), key='C12/capacity', replay=rp)
+        require(len(outs) <= len(carriers), 'set that fits the carriers was packed into %d' % len(outs), key='C12/capacity', replay=rp)
         # (4) through dumps/loads: carriers assigned in ascending element order; decode returns the same set
         try:
             with guard('dumps of a PDS set that fits the carriers', 'C12/encode-refused', rp, allow=(IndexError,)):
-                b = iso.dumps(dict(msg), encoding=encoding)
+                b = iso.dumps(dict(msg), encoding=encoding, iso_config=cfgs)
         except IndexError:
             fail('dumps ran out of carrier elements for a set that fits', key='C12/capacity', replay=rp)
         with guard('loads of the packed message', 'C12/decode', rp):
-            d = iso.loads(b, encoding=encoding)
+            d = iso.loads(b, encoding=encoding, iso_config=cfgs)
         for j, o in enumerate(outs):
-            req_eq(d.get('DE%d' % CARRIERS[j]), o, 'carrier DE%d does not hold packed string %d' % (CARRIERS[j], j + 1), key='C12/assign', replay=rp)
-        for c in CARRIERS[len(outs):]:
+            req_eq(d.get('DE%d' % carriers[j]), o, 'carrier DE%d does not hold packed string %d' % (carriers[j], j + 1), key='C12/assign', replay=rp)
+        for c in carriers[len(outs):]:
             require('DE%d' % c not in d, 'unexpected carrier DE%d' % c, key='C12/assign', replay=rp)
         for t, v in zip(tags, vals):
             got = d.get('PDS' + t)
@@ -85,8 +92,10 @@ def obligations(tier):
         Ob('pack/3-tags', pack(['0158', '0023', '0001']), 300, 'three tags (given out of order), every triple of value lengths 0..992', _funcs),
         Ob('pack/3-tags/cp500', pack(['0105', '0148', '0165'], 'cp500'), 300, 'three tags, cp500', _funcs),
     ]
+    obs.append(Ob('pack/6-tags', pack(['0001', '0002', '0003', '0004', '0005', '0006']), 2400,
+                  'six tags, lengths 0..992 (up to five carriers; sets needing six are outside by the capacity assumption)', _funcs))
+    obs.append(Ob('pack/3-tags/custom-carriers', pack(['0500', '0501', '0023'], 'latin_1', 'de62-plain'), 300,
+                  'caller-supplied configuration in which DE62 is plain text: carriers are 48, 123, 124, 125', _funcs))
     if not q:
         obs.append(Ob('pack/4-tags', pack(['0002', '0003', '0005', '0007']), 900, 'four tags, lengths 0..992', _funcs))
-        obs.append(Ob('pack/6-tags', pack(['0001', '0002', '0003', '0004', '0005', '0006']), 2400,
-                      'six tags, lengths 0..992 (up to five carriers; sets needing six are outside by the capacity assumption)', _funcs))
     return obs
